@@ -191,6 +191,9 @@ type forgeOpts struct {
 	tc               uint8
 	flow             uint32
 	l4               string // udp, scmp-echo, ...
+	// rawSrc, when set, replaces the source host field as it is on the wire (type bits + bytes)
+	rawSrcType slayers.AddrType
+	rawSrc     []byte
 }
 
 func (k *forgeCase) segOf(h int) int {
@@ -428,6 +431,9 @@ func (k *forgeCase) scionLayer() (*slayers.SCION, error) {
 	if err := sc.SetSrcAddr(k.opts.srcHost); err != nil {
 		return nil, err
 	}
+	if k.opts.rawSrc != nil {
+		sc.SrcAddrType, sc.RawSrcAddr = k.opts.rawSrcType, k.opts.rawSrc
+	}
 	if err := sc.SetDstAddr(k.opts.dstHost); err != nil {
 		return nil, err
 	}
@@ -595,7 +601,11 @@ func bubble(t *testing.T, f func()) {
 // host address lengths.
 func (k *forgeCase) addrLen() int {
 	n := 0
-	for _, h := range []addr.Host{k.opts.dstHost, k.opts.srcHost} {
+	for i, h := range []addr.Host{k.opts.dstHost, k.opts.srcHost} {
+		if i == 1 && k.opts.rawSrc != nil {
+			n += len(k.opts.rawSrc)
+			continue
+		}
 		if h.Type() == addr.HostTypeIP && h.IP().Is6() {
 			n += 16
 		} else {
